@@ -138,7 +138,7 @@ def showSpans (m : SpanMap) : String :=
   commaList ((m.mergeSort keyLe).map fun e =>
     s!"{showPath e.1.path}/{kindStr e.1.kind}={e.2.start}-{e.2.stop}")
 
-def showIds (m : List (Str × Path)) : String :=
+def showIdPairs (m : List (Str × Path)) : String :=
   commaList ((m.mergeSort (fun a b => !strLt b.1 a.1)).map fun e => s!"{encStr e.1}={showPath e.2}")
 
 /-- The entries added to the tables by the call. -/
@@ -167,11 +167,11 @@ def showBuild (old : Env) : BuildResult → String
   | .panic => "panic"
   | .err e env => s!"{showErr e} ; {showEnvDelta old env}"
   | .ok p =>
-    s!"ok {showTree p.tree} ; ids {showIds p.ids} ; spans {showSpans p.spans} ; {showEnvDelta old p.env}"
+    s!"ok {showTree p.tree} ; ids {showIdPairs p.ids} ; spans {showSpans p.spans} ; {showEnvDelta old p.env}"
 
 /-- `parse` / `parse_bytes` return no SpanInfo. -/
 def showBuildNoSpans (old : Env) : BuildResult → String
-  | .ok p => s!"ok {showTree p.tree} ; ids {showIds p.ids} ; {showEnvDelta old p.env}"
+  | .ok p => s!"ok {showTree p.tree} ; ids {showIdPairs p.ids} ; {showEnvDelta old p.env}"
   | r => showBuild old r
 
 def handleBuild (st : DState) : List String → Option String
